@@ -3,7 +3,8 @@
    Cond/*Proofs.v; the statements are pinned here. *)
 From Coq Require Import List ZArith Bool String.
 From YV Require Import Cond.Syntax Cond.Sem Cond.Rename Cond.RuleSet Cond.Prec
-  Cond.SemProofs Cond.RuleSetProofs Cond.PrecProofs Cond.Quirks Cond.QuirksProofs.
+  Cond.SemProofs Cond.RuleSetProofs Cond.PrecProofs Cond.Quirks Cond.QuirksProofs
+  Cond.Machine Cond.MachineProofs Cond.Emit Cond.EmitBase Cond.EmitProofs.
 Import ListNotations.
 Local Open Scope Z_scope.
 
@@ -163,3 +164,62 @@ Print Assumptions of_fast_path_equiv_loop.
 Theorem fold_sound : forall e en, eval en (prefold e) = eval en e.
 Proof. exact QuirksProofs.fold_sound. Qed.
 Print Assumptions fold_sound.
+
+(* ------------------------------------------------------------------------
+   Architecture layer: the model of lib/src/compiler/emit.rs (Cond/Emit.v,
+   built from the facts translate/gen_emit.py reads from the source on every
+   run) on the stack machine of Cond/Machine.v.
+
+   emit_correct (partial: the loop-free part [frag1] of the fragment; the
+   full statement is EmitProofs.emit_correct_statement): for every buffer,
+   match lists, rule verdicts and well-typed external variables, the code
+   emitted for a condition, started in any state whose filesize global holds
+   the buffer's size (the variable area may contain anything), terminates
+   normally with exactly the documented verdict on top of the stack. *)
+Theorem emit_correct_partial : forall data pm rules globals,
+  (forall k t, global_ty k = Some t -> types_as t (globals k)) ->
+  forall e st,
+    frag1 e = true -> tyof [] 0 e = Some TBool -> start_ok data st ->
+    exists st', bstep (host_spec data pm rules globals) (emit_condition e) st (ONormal st') /\
+                s_stack st' = V32 (b2z (holds (env_of data pm rules globals []) e)) :: s_stack st.
+Proof. exact EmitProofs.emit_correct_partial. Qed.
+Print Assumptions emit_correct_partial.
+
+(* the executable semantics computes the documented verdict for every
+   sufficient amount of fuel *)
+Theorem run_condition_correct : forall data pm rules globals,
+  (forall k t, global_ty k = Some t -> types_as t (globals k)) ->
+  forall e, frag1 e = true -> tyof [] 0 e = Some TBool ->
+    exists N, forall fuel, (N <= fuel)%nat ->
+      run_condition data pm rules globals fuel e = Some (holds (env_of data pm rules globals []) e).
+Proof. exact EmitProofs.run_condition_correct. Qed.
+Print Assumptions run_condition_correct.
+
+(* no trap (i64.div_s on 0 or on MIN / -1, i64.rem_s on 0, unreachable) and
+   no stuck state *)
+Theorem emit_no_trap : forall data pm rules globals,
+  (forall k t, global_ty k = Some t -> types_as t (globals k)) ->
+  forall e st o,
+    frag1 e = true -> tyof [] 0 e = Some TBool -> start_ok data st ->
+    bstep (host_spec data pm rules globals) (emit_condition e) st o -> exists st', o = ONormal st'.
+Proof. exact EmitProofs.emit_no_trap. Qed.
+Print Assumptions emit_no_trap.
+
+(* variables are written before they are read: the verdict does not depend on
+   what earlier rules left in the variable area *)
+Theorem vars_written_before_read : forall data pm rules globals,
+  (forall k t, global_ty k = Some t -> types_as t (globals k)) ->
+  forall e st1 st2 o1 o2,
+    frag1 e = true -> tyof [] 0 e = Some TBool -> start_ok data st1 -> start_ok data st2 ->
+    s_stack st1 = [] -> s_stack st2 = [] ->
+    bstep (host_spec data pm rules globals) (emit_condition e) st1 o1 ->
+    bstep (host_spec data pm rules globals) (emit_condition e) st2 o2 ->
+    exists a b, o1 = ONormal a /\ o2 = ONormal b /\ s_stack a = s_stack b.
+Proof. exact EmitProofs.vars_written_before_read. Qed.
+Print Assumptions vars_written_before_read.
+
+(* the relational semantics used above and the executable one used by K agree *)
+Theorem machine_semantics_agree : forall host is st o,
+  bstep host is st o -> exists f, forall g, (f <= g)%nat -> exec host g is st = Done o.
+Proof. exact MachineProofs.bstep_exec. Qed.
+Print Assumptions machine_semantics_agree.
